@@ -581,3 +581,16 @@ STATUS_OF_KIND = {'CompletePkt': 'CompletedPkt', 'FirstFragPkt': 'FragmentedPkt'
 
 def has_trunc(lin_):
     return any(isinstance(ATOMS.info(a).defn, tuple) and ATOMS.info(a).defn and ATOMS.info(a).defn[0] == 'trunc' for a in lin_.atoms())
+
+
+def known_ne(w, a, b):
+    """the world knows a != b (strict order in the store, or a recorded disequality fact)"""
+    if isinstance(b, int):
+        b = Lin.c(b)
+    if w.store.entails(lt(a, b)) or w.store.entails(lt(b, a)):
+        return True
+    d = a - b
+    if not d.terms:
+        return d.const != 0
+    d = d if d.terms[0][1] > 0 else -d
+    return w.facts.get(('ne', d)) is True
